@@ -43,6 +43,16 @@ func ProtoFor(c cid.Cid) datamodel.NodePrototype {
 	return basicnode.Prototype.Any
 }
 
+// NewWithNodeReifier is New with LinkSystem.NodeReifier = unixfsnode.Reify:
+// every Load through the link system then returns an already (lazily)
+// reified node. This is how boxo's gateway back-ends configure their link
+// system, besides (or instead of) the named reifiers.
+func NewWithNodeReifier(st *store.Store, trusted bool) *World {
+	w := New(st, trusted)
+	w.LS.NodeReifier = unixfsnode.Reify
+	return w
+}
+
 // LoadRoot loads the block behind c through the link system (one storage
 // read) without reification.
 func (w *World) LoadRoot(c cid.Cid) (datamodel.Node, error) {
